@@ -62,6 +62,7 @@ fn seeds(mini: bool) -> Seeds {
     let mut pattern: Vec<Vec<u8>> = vec![
         b("mutt-[0-9]*"), b("librsvg>=2.12<2.41"), b("{mysql,mariadb,percona}-[0-9]*"), b("foobar-1.0"),
         b("a-{b,c}-{d{e,f},g}-h>=1"), b("ap24-subversion-1.14.3{,nb[0-9]*}"), b("dovecot>=2.3.21.1{nb*,}"),
+        b("foo>=2.0_rc1"), b("foo<1.alpha1"), b("foo>1.0.beta2<2.pre3nb4"), b("p>=1.99999999999999999999rc1"),
     ];
     // deep nesting (one expansion) and wide alternation (4096 expansions)
     pattern.push(format!("{}a{}-1", "{".repeat(if mini { 20 } else { 200 }), "}".repeat(if mini { 20 } else { 200 })).into_bytes());
@@ -312,8 +313,41 @@ fn measure<F: FnOnce()>(ev: &mut Ev, entry: &str, len: usize, f: F) {
     ev.eval();
 }
 
+/// Variants of a version in which one token is replaced by an over-long
+/// digit run or by a pre-release modifier, so that saturated numbers and
+/// negative weights meet at the same component index.
+fn aligned_variants(v: &str) -> Vec<String> {
+    let mut toks: Vec<String> = vec![];
+    for c in v.chars() {
+        let class = |c: char| if c.is_ascii_digit() { 0 } else if c.is_ascii_alphabetic() { 1 } else { 2 };
+        match toks.last_mut() {
+            Some(t) if class(t.chars().next().unwrap()) == class(c) && class(c) != 2 => t.push(c),
+            _ => toks.push(c.to_string()),
+        }
+    }
+    let mut out = vec![];
+    for i in 0..toks.len().min(8) {
+        if toks[i].chars().all(|c| c.is_ascii_alphanumeric()) {
+            for rep in ["99999999999999999999", "alpha", "rc", "9223372036854775807"] {
+                let mut t = toks.clone();
+                t[i] = rep.to_string();
+                out.push(t.concat());
+            }
+        }
+    }
+    out.truncate(16);
+    out
+}
+
 fn names_for(r: &mut Rng, p: &str, pool: &[Vec<u8>]) -> Vec<String> {
     let mut v = vec![String::new(), p.to_string()];
+    if let opat::DeweyParse::Ok(d) = opat::parse_dewey(p) {
+        for (_, b) in d.bounds.iter().take(2) {
+            for a in aligned_variants(b) {
+                v.push(format!("{}-{a}", d.base));
+            }
+        }
+    }
     let stripped: String = p.chars().filter(|c| !matches!(c, '{' | '}' | ',' | '*' | '[' | ']' | '?')).collect();
     v.push(stripped.replace(">=", "-").replace("<=", "-").replace(['<', '>'], "-"));
     v.push(format!("{}-1.0", p.chars().take(6).collect::<String>()));
